@@ -12,7 +12,8 @@ RULE = ('message lists of 2-4 payloads mixing single- and multi-frame messages; 
         '(data frames and Flow Control) x {drop, duplicate}: run the exchange with that single fault, advance virtual time past all '
         'timeouts. Oracle: delivered payloads are sent payloads in sending order (a duplicated Single Frame may appear twice), at most '
         'the hit message is missing, both layers idle afterwards, loss of a multi-frame message reported on at least one side, later '
-        'messages delivered. Each run is replayed on the extracted model. non-trivial = distinct (scenario, fault position, fault kind)')
+        'messages delivered. Each run is replayed on the extracted model. non-trivial = distinct (scenario, fault position, fault kind)'
+        ' (duplex_faults) both directions carry multi-frame messages at once (blocksize 1..3): every frame index of either link x {drop, duplicate}: at most ONE message lost in total, everything else in order, both sides idle after the timeouts.')
 ASSUME = ['exactly one fault per exchange; links otherwise reliable FIFOs; timeouts 1000 ms, ticks of 37 ms (never exactly on a deadline)']
 
 TICK = 37 * 10**6
